@@ -5,9 +5,10 @@ From Gv Require Import lib.Bytes lib.Json C02.Model C02.Spec C02.ProofsBase.
 Open Scope N_scope.
 
 Lemma render_ext : forall n a b tns r,
-  get_path (node_path n) a = get_path (node_path n) b -> render n a tns r = render n b tns r.
+  (has_path_kind n = true -> get_path (node_path n) a = get_path (node_path n) b) ->
+  render n a tns r = render n b tns r.
 Proof.
-  intros n a b tns r H. destruct n; cbn [node_path] in H; try reflexivity;
+  intros n a b tns r H. destruct n; try reflexivity; specialize (H eq_refl); cbn [node_path] in H;
     try (cbn [render]; unfold scalar_render; rewrite H; reflexivity).
 Qed.
 
@@ -21,22 +22,23 @@ Section Ext.
   Variable deny : bytes -> bytes -> bool.
 
   Lemma complete_ext : forall n a b path tns,
-    get_path (node_path n) a = get_path (node_path n) b ->
-    (forall pth, nonnull_error pth (node_path n) a = nonnull_error pth (node_path n) b) ->
+    (has_path_kind n = true -> get_path (node_path n) a = get_path (node_path n) b) ->
+    (has_path_kind n = true -> forall pth, nonnull_error pth (node_path n) a = nonnull_error pth (node_path n) b) ->
     complete deny n a path tns = complete deny n b path tns.
   Proof.
-    intros n a b path tns H Hnn. destruct n; cbn [node_path] in H, Hnn; try reflexivity;
+    intros n a b path tns H Hnn. destruct n; try reflexivity;
+      specialize (H eq_refl); specialize (Hnn eq_refl); cbn [node_path] in H, Hnn;
       try (cbn [complete]; unfold scalar_complete; rewrite H, Hnn; reflexivity).
   Qed.
 
-  Lemma complete_ext_one : forall n k a b path tns,
-    node_path n = [k] \/ node_path n = [] ->
-    get_path (node_path n) a = get_path (node_path n) b ->
+  Lemma complete_ext_one : forall n a b path tns,
+    (has_path_kind n = true -> exists k, node_path n = [k]) ->
+    (has_path_kind n = true -> get_path (node_path n) a = get_path (node_path n) b) ->
     has_skip_errors a = has_skip_errors b ->
     complete deny n a path tns = complete deny n b path tns.
   Proof.
-    intros n k a b path tns Hp Hg Hs. apply complete_ext; auto.
-    intros pth. destruct Hp as [-> | ->]; [apply nonnull_error_one; exact Hs | reflexivity].
+    intros n a b path tns Hp Hg Hs. apply complete_ext; auto.
+    intros Hk pth. destruct (Hp Hk) as [k ->]. apply nonnull_error_one; exact Hs.
   Qed.
 End Ext.
 
@@ -71,4 +73,18 @@ Proof.
         repeat split; try congruence; try (intros _; eexists; split; reflexivity).
   - cbn [is_null_or_missing] in *. destruct nl; inversion Hp; inversion Hc; subst;
       repeat split; try congruence; try (intros _; eexists; split; reflexivity).
+Qed.
+
+(* shape of well-formed plans *)
+Lemma plan_wf_path : forall as_item depth n,
+  plan_wf as_item depth n = true -> has_path_kind n = true ->
+  if as_item then node_path n = [] else exists k, node_path n = [k].
+Proof.
+  intros as_item depth n H Hk.
+  assert ((if as_item then match node_path n with [] => true | _ => false end
+           else single_key (node_path n)) = true) as Hp.
+  { destruct n; try discriminate;
+      (rewrite plan_wf_obj_eq in H || rewrite plan_wf_arr_eq in H || simpl in H);
+      apply andb_true_iff in H; destruct H as [H _]; exact H. }
+  destruct as_item; destruct (node_path n) as [|k [|k2 r]]; try discriminate; eauto.
 Qed.
